@@ -21,7 +21,7 @@ BUGS = ["bug_key", "bug_key_warm", "bug_time", "bug_stale"]
 
 
 def export_histories(c):
-    res = V.tlc(PID, "MC_Caches", "MC_Caches_cold.cfg", workers=8, timeout=900)
+    res = V.tlc(PID, "MC_Caches", "MC_Caches_cold.cfg", workers=4, timeout=900)
     if res["violated"]:
         c.violation("model/" + res["violated"], "Caches.tla violates %s (cold start)" % res["violated"],
                     {"kind": "model", "cfg": "MC_Caches_cold.cfg", "tlc_tail": res["out"][-3000:]})
@@ -203,7 +203,7 @@ def run(tier):
         "pool verdicts are compared as accept / reject with the spec and as reject classes between the nodes",
     ]
     hs = export_histories(c)
-    res = V.tlc(PID, "MC_Caches", "MC_Caches_warm.cfg", workers=8, timeout=900)
+    res = V.tlc(PID, "MC_Caches", "MC_Caches_warm.cfg", workers=4, timeout=900)
     if res["violated"]:
         c.violation("model/" + res["violated"], "Caches.tla violates %s (warm start)" % res["violated"],
                     {"kind": "model", "cfg": "MC_Caches_warm.cfg", "tlc_tail": res["out"][-3000:]})
@@ -216,7 +216,7 @@ def run(tier):
             raise V.ToolError("oracle self-test failed: %s does not violate CacheTransparent" % b)
         rej[b] = r["violated"]
     c.set("selftest_broken_caches_rejected_by", rej)
-    n, par, nodes = (32, 8, "ABC") if tier == "quick" else (320, 8, "ABCD")
+    n, par, nodes = (28, 4, "ABC") if tier == "quick" else (240, 4, "ABCD")
     rnd = random.Random(V.seed())
     chosen = pick(hs, n, rnd)
     V.build_harness("c14")
@@ -235,7 +235,7 @@ def replay(path, tier):
     r = json.load(open(path))
     p = r["payload"]
     if p["kind"] == "model":
-        res = V.tlc(PID, "MC_Caches", p["cfg"], workers=8)
+        res = V.tlc(PID, "MC_Caches", p["cfg"], workers=4)
         if res["violated"]:
             c.violation("model/" + res["violated"], "model violation", p)
     else:
